@@ -250,7 +250,7 @@ pub fn soup(rng: &mut Rng, max_frags: usize) -> GenDoc {
 pub const TREE_NAMES: &[&str] =
     &["div", "p", "span", "a", "b", "ul", "li", "section", "h1", "em", "x-foo", "td", "i"];
 pub const CUSTOM_NAMES: &[&str] = &["x-aa", "x-bb", "x-cc", "x-dd", "y-ee", "y-ff", "z:gg", "z:hh", "a0bc", "a7bc", "q-rs", "q-tu"];
-pub const VOID_NAMES: &[&str] = &["br", "img", "input", "hr", "meta", "link", "wbr", "area"];
+pub const VOID_NAMES: &[&str] = &["br", "img", "input", "hr", "meta", "link", "wbr", "area", "esi:include", "esi:comment", "ESI:Include"];
 pub const TREE_ATTRS: &[&str] = &["id", "class", "href", "data-x", "title", "lang", "foo"];
 pub const TREE_VALUES: &[&str] = &[
     "", "a", "b", "x", "foo", "bar", "foo bar", "bar foo baz", "a-b", "en", "en-US", "EN", "Foo",
@@ -896,7 +896,9 @@ pub fn el_op(rng: &mut Rng) -> ElOp {
             let n = rng.small(2);
             ElOp::OnEndTag((0..n).map(|_| et_op(rng)).collect())
         }
-        18 => ElOp::Snapshot,
+        18 => {
+            if rng.chance(1, 3) { ElOp::ClearEndTag } else { ElOp::Snapshot }
+        }
         19 => ElOp::GetAttr(rng.pick(TREE_ATTRS).into()),
         20 => ElOp::HasAttr(rng.pick(TREE_ATTRS).into()),
         _ => ElOp::Before(content(rng)),
